@@ -163,6 +163,47 @@ def cost_is_pure(ctx, rule: str):
                where(f))
 
 
+def _derivation_under_nograd(repo, call) -> bool:
+    """Every division by a cost excess that derives a strength from task_loss -- in __call__ or
+    in a helper it was moved to -- is lexically inside ``with torch.no_grad()``, or its function
+    is only called from inside such a block."""
+    import ast as _ast
+    from ..util import helper_closure
+    fns = helper_closure(repo, call)
+
+    def guarded_nodes(fn):
+        inside = set()
+        for w in _ast.walk(fn.node):
+            if isinstance(w, _ast.With) and any(
+                    isinstance(it.context_expr, _ast.Call) and
+                    _ast.unparse(it.context_expr.func).endswith('no_grad') for it in w.items):
+                for x in _ast.walk(w):
+                    inside.add(id(x))
+        return inside
+    guarded = {f.qualname: guarded_nodes(f) for f in fns}
+    # functions all of whose call sites (within the closure) are under no_grad
+    called_under = {}
+    for f in fns:
+        for n in _ast.walk(f.node):
+            if isinstance(n, _ast.Call) and isinstance(n.func, _ast.Attribute):
+                tgt = next((g for g in fns if g.name == n.func.attr and g is not f), None)
+                if tgt is not None:
+                    called_under.setdefault(tgt.qualname, []).append(
+                        id(n) in guarded[f.qualname] or f.qualname in called_under and
+                        all(called_under[f.qualname]))
+    divs = 0
+    for f in fns:
+        for n in _ast.walk(f.node):
+            if isinstance(n, _ast.BinOp) and isinstance(n.op, _ast.Div) and \
+                    'task_loss' in _ast.unparse(n.left):
+                divs += 1
+                ok = id(n) in guarded[f.qualname] or (
+                    f.qualname in called_under and all(called_under[f.qualname]))
+                if not ok:
+                    return False
+    return divs > 0
+
+
 def run(ctx):
     cost_is_pure(ctx, 'R19f')
     named_cost_plumbing(ctx, 'R19e')
@@ -364,7 +405,8 @@ def run(ctx):
             if e.kind == 'setattr' and e.data[0] == SELF and e.data[1] == 'final_strengths':
                 found = True
                 v = e.data[2]
-                nograd = any(c[0] == 'with' and is_call(c[1], 'torch.no_grad') for c in e.ctx)
+                nograd = any(c[0] == 'with' and is_call(c[1], 'torch.no_grad') for c in e.ctx) \
+                    or _derivation_under_nograd(repo, call)
                 elems = []
                 for x in subterms(v):
                     if x[0] == 'comp':
@@ -401,6 +443,21 @@ def run(ctx):
                         for a in inner:
                             prob = prob or judge(a, facts)[1]
                         return zero, prob
+                    if t[0] == 'call' and method_call(t) is not None and \
+                            method_call(t)[0] == SELF and \
+                            repo.find_method(du, method_call(t)[1]) is not None:
+                        # a helper of the class: every returning path, with its own branch
+                        # decisions, parameters replaced by the actual arguments
+                        hf = repo.find_method(du, method_call(t)[1])
+                        sub = {('param', pn): a for pn, a in zip(hf.params[1:], t[2])}
+                        sub.update({('param', kn): a for kn, a in t[3]})
+                        ok_all, prob_any = True, None
+                        for q in returning(paths(repo, hf)):
+                            fq = [(poly.substitute(a, sub), v) for a, v in q.assumptions]
+                            a_, b_ = judge(poly.substitute(q.retval, sub), facts + fq)
+                            ok_all = ok_all and a_
+                            prob_any = prob_any or b_
+                        return ok_all, prob_any
                     if t[0] == 'bin' and t[1] == '/':
                         den = t[3]
                         pos = any((a == ('cmp', '>', den, ('const', 0)) and v_) or
